@@ -13,8 +13,8 @@
     unrolled copies give the same final state, the same events and the same box**, whenever every
     element of every copy succeeds at its first attempt (no forward reference has to be retried); plus
     the lemma that makes the comparison meaningful although the two sides spend fuel differently: more
-    fuel never changes a result that was not the fuel error (for trees without a non-empty `<specs>`,
-    inside which the code — and the model — swallow errors).
+    fuel never changes a result that was not the fuel error (unconditionally, now that limit and fuel
+    errors are final inside `<specs>` too).
 
   What is still decided per input by the unrolling oracle: while / until loops and `<for>` as whole
   programs, bodies that need retries, and the embedding of the loop among other siblings (index shift,
@@ -31,12 +31,12 @@ variable {ρ : Type}
     taking start, start+step, …** — as an equation between the loop and its manual unrolling
     (`<var name="v"/>` followed by the body, N times, as one sibling list): same final state (scopes,
     element table, random state, originals, …), same events, same box. Hypotheses: a legal variable name,
-    a well-formed state, no non-empty `<specs>` in the body, the evaluator returns the rendered loop
+    a well-formed state (not inside `<specs>`, a scope exists), the evaluator returns the rendered loop
     values unchanged, every pass succeeds at the first attempt within the limits (`FirstTryLoop`), and
     neither side ran out of model fuel. -/
 theorem loop_equals_unrolling (ev : Evalr ρ) (name : Str) (start step : Rat) (N : Nat) (ks : Nodes) (st : St ρ)
     (hname : name ≠ [] ∧ name ≠ ['_'] ∧ name ≠ cs!"__" ∧ name ≠ cs!"id")
-    (hok : Ok st) (hks : ks.specsFree = true)
+    (hok : Ok st)
     (hev : LitEval ev (loopVals start step N))
     (hfirst : FirstTryLoop ev name step ks N st start 0)
     (fL fU : Nat)
@@ -44,26 +44,26 @@ theorem loop_equals_unrolling (ev : Evalr ρ) (name : Str) (start step : Rat) (N
     (hU : NF (processNodes ev fU st (unroll name (loopVals start step N) ks))) :
     loopIter ev fL st ks (some N) none none name start step 0 [] none
       = processNodes ev fU st (unroll name (loopVals start step N) ks) :=
-  loop_eq_unroll ev name start step N ks st hname hok hks hev hfirst fL fU hL hU
+  loop_eq_unroll ev name start step N ks st hname hok hev hfirst fL fU hL hU
 
 /-- … and the hypotheses about fuel can be met: from some fuel on both sides SUCCEED with that common
     state, event list and box -/
 theorem loop_and_unrolling_succeed (ev : Evalr ρ) (name : Str) (start step : Rat) (N : Nat) (ks : Nodes)
     (st : St ρ) (hname : name ≠ [] ∧ name ≠ ['_'] ∧ name ≠ cs!"__" ∧ name ≠ cs!"id")
-    (hok : Ok st) (hks : ks.specsFree = true)
+    (hok : Ok st)
     (hev : LitEval ev (loopVals start step N))
     (hfirst : FirstTryLoop ev name step ks N st start 0) :
     ∃ F s2 evs bb, ∀ fL fU, F ≤ fL → F ≤ fU →
       loopIter ev fL st ks (some N) none none name start step 0 [] none = (s2, .ok (evs, bb)) ∧
       processNodes ev fU st (unroll name (loopVals start step N) ks) = (s2, .ok (evs, bb)) :=
-  loop_unroll_ok ev name start step N ks st hname hok hks hev hfirst
+  loop_unroll_ok ev name start step N ks st hname hok hev hfirst
 
 /-- the same for the `<loop>` ELEMENT with its `count`, `loop-var`, `start`, `step` attributes evaluated -/
 theorem loop_element_equals_unrolling (ev : Evalr ρ) (e : Elem) (name : Str) (start step : Rat) (N : Nat)
     (ks : Nodes) (st : St ρ) (rng : ρ) (hcount : (e.getAttr cs!"count").isSome = true)
     (hhead : loopHead ev st e = .ok (some N, name, start, step, rng))
     (hname : name ≠ [] ∧ name ≠ ['_'] ∧ name ≠ cs!"__" ∧ name ≠ cs!"id")
-    (hok : Ok st) (hks : ks.specsFree = true)
+    (hok : Ok st)
     (hev : LitEval ev (loopVals start step N))
     (hfirst : FirstTryLoop ev name step ks N { st with rng := rng } start 0)
     (fL fU : Nat)
@@ -71,15 +71,15 @@ theorem loop_element_equals_unrolling (ev : Evalr ρ) (e : Elem) (name : Str) (s
     (hU : NF (processNodes ev fU { st with rng := rng } (unroll name (loopVals start step N) ks))) :
     genLoop ev fL st e (some ks)
       = processNodes ev fU { st with rng := rng } (unroll name (loopVals start step N) ks) :=
-  genLoop_eq_unroll ev e name start step N ks st rng hcount hhead hname hok hks hev hfirst fL fU hL hU
+  genLoop_eq_unroll ev e name start step N ks st rng hcount hhead hname hok hev hfirst fL fU hL hU
 
 /-- **the model's fuel never decides**: a result that is not the fuel error is the result for every larger
-    fuel (documents without a non-empty `<specs>`; inside `<specs>` every error is swallowed, by the code
-    as by the model, so there the statement would be false) -/
-theorem fuel_does_not_decide (ev : Evalr ρ) (f f' : Nat) (st : St ρ) (ks : Nodes) (h : f ≤ f') (hok : Ok st)
-    (hks : ks.specsFree = true) (hnf : NF (processNodes ev f st ks)) :
+    fuel — for every state and every document (limit and fuel errors are final inside `<specs>` too, so a
+    fuel error always reaches the caller) -/
+theorem fuel_does_not_decide (ev : Evalr ρ) (f f' : Nat) (st : St ρ) (ks : Nodes) (h : f ≤ f')
+    (hnf : NF (processNodes ev f st ks)) :
     processNodes ev f' st ks = processNodes ev f st ks :=
-  processNodes_fuel_robust ev f f' st ks h hok hks hnf
+  processNodes_fuel_robust ev f f' st ks h hnf
 
 end Svgdx.Props.C16
 
